@@ -22,6 +22,8 @@ func main() {
 		runQuant()
 	case "dist":
 		runDist()
+	case "search":
+		runSearch(os.Args[2])
 	default:
 		fmt.Fprintln(os.Stderr, "unknown engine")
 		os.Exit(2)
